@@ -284,6 +284,18 @@ class PredAbs:
             return False
         return self._edge(st, b, si) is not None
 
+    def at_exit(self):
+        """abstract state on entry to the function's exit block (None if the exit is unreachable)"""
+        return self.flow.block_in.get(self.f.exit)
+
+    def exit_entails(self, formula):
+        st = self.at_exit()
+        return True if st is None else self.v.entails(st, formula)
+
+    def describe_exit(self):
+        st = self.at_exit()
+        return [] if st is None else self.v.describe(st)
+
     def reachable(self, elem):
         st = self.flow.before(elem)
         return st is not None and st != 0
